@@ -175,7 +175,10 @@ def gen_e2e(tier, seed):
              Case("e14", ["run 0 0 silent 1500 timeout=300"], {"keep_prefix": 0}), Case("e15", ["run 3 3 silent 1500 timeout=300"], {"keep_prefix": 0}),
              # silence between Tune and OpenOk; an I/O thread stalled while the server keeps sending
              Case("e16", ["run 1 1 silent 500 openok-delay=60000"], {"keep_prefix": 0}), Case("e17", ["run 1 1 stall-io 4200"], {"keep_prefix": 0}),
-             Case("e18", ["run 1 1 stall-pass 4200"], {"keep_prefix": 0})]
+             Case("e18", ["run 1 1 stall-pass 4200"], {"keep_prefix": 0}),
+             # the I/O thread stalled for 1.3 h in its write of TuneOk + Open: the first timer expiry and the read of
+             # OpenOk fall into one poll batch - the timers must be running afterwards all the same
+             Case("e19", ["run 1 1 silent 3600 stall-tuneok=1300"], {"keep_prefix": 0}), Case("e20", ["run 1 1 chatty 3300 stall-tuneok=1300"], {"keep_prefix": 0})]
     if tier != "quick":
         cases += [Case("e5", ["run 2 2 silent 6000"], {"keep_prefix": 0}), Case("e6", ["run 2 3 chatty 12500"], {"keep_prefix": 0}),
                   Case("e7", ["run 1 1 chatty 6500"], {"keep_prefix": 0}), Case("e9", ["run 2 2 dribble 9000"], {"keep_prefix": 0})]
